@@ -2,6 +2,7 @@ import argparse
 import os
 import sys
 import traceback
+import warnings
 
 
 def main(argv=None):
@@ -12,6 +13,7 @@ def main(argv=None):
     ap.add_argument("--jobs", type=int, default=None)
     ap.add_argument("--selftest", action="store_true")
     a = ap.parse_args(argv)
+    warnings.simplefilter("ignore")
     tier = a.tier or os.environ.get("VERIF_TIER") or "quick"
     if tier not in ("quick", "thorough"):
         tier = "quick"
